@@ -1,9 +1,9 @@
 CONSTANTS
-  NP = 1
+  NP = 2
   NLines = 2
   Dev = {}
   Lvls = {TRUE, FALSE}
-  TwoPhase = FALSE
+  TwoPhase = TRUE
   Grain = "stmt"
 SPECIFICATION Spec
 INVARIANT InvExactlyOnce
@@ -12,5 +12,5 @@ INVARIANT InvProducerOrder
 INVARIANT InvSeqConsecutive
 INVARIANT InvRetIffAccepted
 INVARIANT InvStopComplete
-PROPERTY StopReturns
+INVARIANT Reach_PopFailsWithBacklog
 CHECK_DEADLOCK FALSE
